@@ -2,7 +2,6 @@
 //! LD_PRELOAD shim.
 
 use crate::run::scratch_dir;
-use crate::shim::T0_SECS;
 use std::process::{Command, Stdio};
 
 pub const CLI_RELEASE: &str = "/verif/target/cli/release/squitterator";
@@ -35,7 +34,8 @@ pub fn run_cli(release: bool, opts: &[&str], content: &[u8], tag: &str) -> Resul
         .arg(&path)
         .args(opts)
         .env("LD_PRELOAD", FAKECLOCK)
-        .env("VERIF_FAKE_EPOCH", T0_SECS.to_string())
+        .env("VERIF_FAKE_EPOCH", crate::shim::epoch().0.to_string())
+        .env("VERIF_FAKE_EPOCH_NS", crate::shim::epoch().1.to_string())
         .env_remove("RUST_LOG")
         .env("RUST_BACKTRACE", "0")
         .stdin(Stdio::null())
